@@ -209,6 +209,23 @@ func checkC07(replay string) {
 				byCode[d.Code] = append(byCode[d.Code], l.ID)
 			}
 		}
+		// ids of diagnostics that sit in statements spanning several lines: targeted half of the time
+		multi := map[int]bool{}
+		for _, st := range gen.Statements(bt0.P) {
+			if len(st.N.Pre) > 1 && len(st.N.Kids) == 0 && len(st.N.Post) == 0 {
+				for _, l := range st.N.Pre {
+					multi[l.ID] = true
+				}
+			}
+		}
+		byCodeMulti := map[string][]int{}
+		for c, ids := range byCode {
+			for _, id := range ids {
+				if multi[id] {
+					byCodeMulti[c] = append(byCodeMulti[c], id)
+				}
+			}
+		}
 		var codes []string
 		for c := range byCode {
 			codes = append(codes, c)
@@ -221,6 +238,9 @@ func checkC07(replay string) {
 		for k := 0; k < perProg; k++ {
 			code := codes[(k+pi)%len(codes)]
 			ids := byCode[code]
+			if m := byCodeMulti[code]; len(m) > 0 && k%2 == 0 {
+				ids = m
+			}
 			lineID := ids[rng.Intn(len(ids))]
 			c := placements[(k*7+pi)%len(placements)]
 			c.list = (k + pi*3) % gen.NCodeLists()
